@@ -520,8 +520,14 @@ def _worker(idx):
     try:
         inst = job.make()
         rng = random.Random(seed * 7919 + idx)
-        if job.mode == "A":
-            dis = coexplore(inst, lean, cov, **job.kw)
+        kw = dict(job.kw)
+        if "deadline_s" in kw:
+            kw["deadline"] = time.time() + kw.pop("deadline_s")
+        if isinstance(inst, str):
+            cov.notes.append("not covered: " + inst)
+            dis = []
+        elif job.mode == "A":
+            dis = coexplore(inst, lean, cov, **kw)
         elif job.mode == "B":
             dis = cosim(inst, lean, cov, rng, **job.kw)
         elif job.mode == "A0":
